@@ -1057,6 +1057,11 @@ fn parse_adapters(e: &syn::Expr) -> Option<(ChainSrc, Vec<Adapter>)> {
                     ("filter", 1) => closure_of(&mc.args[0]).map(|c| (Adapter::Filter(c), (*mc.receiver).clone())),
                     ("filter_map", 1) => closure_of(&mc.args[0]).map(|c| (Adapter::FilterMap(c), (*mc.receiver).clone())),
                     ("enumerate", 0) => Some((Adapter::Enumerate, (*mc.receiver).clone())),
+                    ("peekable", 0) => {
+                        // peeking a collected Vec is looking at its first element: the adapter itself is the identity
+                        cur = (*mc.receiver).clone();
+                        continue;
+                    }
                     ("copied", 0) => Some((Adapter::Copied, (*mc.receiver).clone())),
                     ("cloned", 0) => Some((Adapter::Cloned, (*mc.receiver).clone())),
                     ("iter", 0) => {
